@@ -475,7 +475,7 @@ def gen_key(rng, root, pos, a):
 PARAMS = [b'1', b'42', b'abc', b'', b'a/b', b'x y', b'\xe9', b'en', b'0', b'a\x00b', b'line\n']
 
 
-def tree_case(rng, depth):
+def tree_case(rng, depth, nul_params=False):
     hc = HidCounter()
     a = gen_app(rng, depth, hc)
     throws = rng.choice('01')
@@ -501,6 +501,8 @@ def tree_case(rng, depth):
         key = gen_key(rng, a, pos, b)
         np = rng.choice([0, 1, 1, 2, 2, 3, 4, 6])
         ps = [rng.choice(PARAMS) for _ in range(np)]
+        if throws == '0' and not nul_params:
+            ps = [x.replace(b'\x00', b'0') for x in ps]
         kind = 'x' if rng.random() < 0.5 else 'm'
         q += [kind, pos_str(pos), hexs(key)] + (['*'] if kind == 'x' else []) + [str(np)] + [hexs(p) for p in ps]
     vt = 'V%d' % len(vals) + ''.join(' %s %s' % (hexs(k), hexs(v)) for k, v in vals)
@@ -560,11 +562,11 @@ def rel_key(rng, frm, to, page_key):
     return b'/'.join(comps + (page_key,))
 
 
-def site_case(rng, depth):
+def site_case(rng, depth, nul_params=False):
     hc = HidCounter()
     s = gen_site(rng, depth, hc)
     nodes = list(site_nodes(s))
-    throws = rng.choice('01')
+    throws = '0' if nul_params else rng.choice('01')
     q = []
     for _ in range(rng.choice([8, 12])):
         path, names, prefix, node = rng.choice(nodes)
@@ -582,6 +584,14 @@ def site_case(rng, depth):
             ps = ps[:i] + [rng.choice(PARAMS)] + ps[i + 1:]
         elif r < 0.2:
             ps = (ps + [b'1'])[:6] if rng.random() < 0.5 else ps[:-1]
+        if nul_params and ps and rng.random() < 0.6:
+            i = rng.randrange(len(ps))
+            cls = [e[1] for e in rt if e[0] == 'P']
+            if i < len(cls) and cmem(cls[i], 0):
+                j = rng.randrange(len(ps[i]) + 1)
+                ps = ps[:i] + [ps[i][:j] + b'\x00' + ps[i][j:]] + ps[i + 1:]
+        if throws == '0' and not nul_params:
+            ps = [x.replace(b'\x00', b'0') for x in ps]
         eurl = prefix
         k = 0
         for e in rt:
@@ -729,12 +739,12 @@ def exhaustive_cases():
 def gen_abstract(ctx):
     rng = ctx.rng
     cases = exhaustive_cases()
-    nt = ctx.scale(3000, 30000)
+    nt = ctx.scale(1800, 30000)
     for i in range(nt):
         cases.append(tree_case(rng, rng.choice([1, 1, 2, 2, 3, 4])))
-    for i in range(ctx.scale(2000, 20000)):
+    for i in range(ctx.scale(1300, 20000)):
         cases.append(site_case(rng, rng.choice([1, 2, 2, 3, 3, 4])))
-    for i in range(ctx.scale(1500, 15000)):
+    for i in range(ctx.scale(900, 15000)):
         cases.append(pool_case(rng))
     return cases
 
@@ -1149,5 +1159,6 @@ def run(ctx):
     vlib.differential(ctx, cases, exe, mexe, oracle, nontrivial, classify)
     if ctx.replay_cases is None:
         # mount_point::match(std::string const &...) with embedded NUL: oracle only (see docs/C20.md, observation 1)
-        nul = prepare(ctx, mexe, [pool_case(ctx.rng, nul_in_k=True) for _ in range(ctx.scale(60, 600))])
-        vlib.differential(ctx, nul, exe, None, oracle, nontrivial, lambda c, o: 'G:nul-probe', what='oracle only')
+        nul = prepare(ctx, mexe, [pool_case(ctx.rng, nul_in_k=True) for _ in range(ctx.scale(60, 600))] +
+                      [site_case(ctx.rng, ctx.rng.choice([1, 2, 3]), nul_params=True) for _ in range(ctx.scale(60, 600))])
+        vlib.differential(ctx, nul, exe, None, oracle, nontrivial, lambda c, o: c[0] + ':nul-probe', what='oracle only')
